@@ -479,7 +479,7 @@ reg("C08", needs_cli=True,
          "read through a reader that returns 1, 2, 7, 512, 4095, 4096, 4097 or 65536 bytes per call (fixed or varying) and handed to DecoderFor; every 9th case is input in none "
          "of the formats (empty, text, binary, a CSV row with too few fields, truncated JSON); every 5th case re-encodes a file through a chain of 1..4 formats with the real `vegeta encode`; all cases non-trivial",
     clauses={1: "no decoder was selected for a stream in one of the three encodings", 2: "the selected decoder does not yield exactly the encoded sequence (something lost, duplicated or altered while sniffing)",
-             3: "a decoder was returned for input that is in none of the formats", 4: "a transcoding chain does not decode to the original sequence"},
+             3: "a decoder was returned for input that is in none of the formats", 4: "a transcoding chain does not decode to the original sequence", 5: "a command given bytes in none of the encodings on its standard input (a pipe) did not refuse them"},
     assumptions=["'input in format F' means F's decoder decodes a first record (DESIGN 7.1); near-valid foreign input being accepted is not a violation"],
     level_text="decoder_for_replays (the reader handed to the chosen decoder yields exactly the original stream, for every chunking and every read-ahead of the trial decoders), decoder_for_first_success and transcode_chain are proved in Coq over a stream algebra with adversarial chunking; tie by real DecoderFor runs over chunked readers and real `vegeta encode` chains.",
     technique="Coq proof over a stream algebra (tee/multi-reader replay); differential correspondence incl. the CLI",
